@@ -26,8 +26,11 @@ VARIABLES impA1, impA2, impB1,  \* sets of imported files
 vars == <<impA1, impA2, impB1, bKind, cCommits, dupPath, missing, wktVendored, wktVendoredC>>
 
 SeqsNoRepeat(S, n) == UNION {{s \in [1..k -> S] : \A i, j \in 1..k : i # j => s[i] # s[j]} : k \in 1..n}
-Init == /\ impA1 \in SUBSET {"b1", "c1", "wkt"}
+\* (a1 may also import its sibling a2: an import inside the module adds no module edge, but the same path is then
+\*  reached twice - from inside the module and, when b1 imports it, from the module that closes a cycle)
+Init == /\ impA1 \in SUBSET {"b1", "c1", "wkt", "a2"}
         /\ impA2 \in SUBSET {"a1", "c1"}
+        /\ ~("a2" \in impA1 /\ "a1" \in impA2)
         /\ impB1 \in SUBSET {"c1", "a2"}
         /\ bKind \in {"local", "remote", "both"}
         /\ cCommits \in SeqsNoRepeat({1, 2, 3}, 3)
